@@ -314,10 +314,12 @@ XyzText(m, comment) == <<UIntDigits(Len(m.atoms)), comment>> \o [i \in DOMAIN m.
 
 (* ---- the specification's reader = the grammar of accepted files ------- *)
 (* count line: blanks, digits, blanks; comment: anything; n atom lines: blanks, symbol in any   *)
-(* case, blanks, x, blanks, y, blanks, z, blanks; nothing but blank lines after them.           *)
+(* case, blanks, x, blanks, y, blanks, z, blanks (and possibly further columns, which are not  *)
+(* coordinates); nothing but blank lines after them.                                          *)
 XyzAtomOf(line) ==
   LET tk == Tokens(line) IN
-  IF Len(tk) # 4 THEN [ok |-> FALSE, z |-> 0, c |-> <<>>] ELSE
+  \* files of other programs carry further per-atom columns after x y z (a charge, a force vector): they are not coordinates
+  IF Len(tk) < 4 THEN [ok |-> FALSE, z |-> 0, c |-> <<>>] ELSE
   LET x == ParseDec(tk[2], 3)
       y == ParseDec(tk[3], 3)
       w == ParseDec(tk[4], 3)
@@ -361,8 +363,10 @@ XyzSpellLine(a, st) ==
   st.lead \o CaseStyle(SymTab[a.z], st.cs) \o st.sep[1] \o NumSpell(a.c[1], st.plus[1], st.nd[1])
   \o st.sep[2] \o NumSpell(a.c[2], st.plus[2], st.nd[2]) \o st.sep[3] \o NumSpell(a.c[3], st.plus[3], st.nd[3])
   \o st.trail
+(* what may follow z: blanks, or a blank and then further numeric columns *)
+TrailOK(tr) == BlankRun(tr) \/ (IsBlank(tr[1]) /\ \A i \in DOMAIN tr : IsBlank(tr[i]) \/ tr[i] \in 48..57 \/ tr[i] \in {43, 45, 46})
 LineStyleValid(a, st) ==
-  /\ st.cs \in 1..4 /\ BlankRun(st.lead) /\ BlankRun(st.trail)
+  /\ st.cs \in 1..4 /\ BlankRun(st.lead) /\ TrailOK(st.trail)
   /\ \A k \in 1..3 : st.sep[k] # <<>> /\ BlankRun(st.sep[k]) /\ st.plus[k] \in BOOLEAN /\ NumSpellValid(a.c[k], st.nd[k])
 XyzSpelling(m, comment, st) ==
   <<st.clead \o UIntDigits(Len(m.atoms)) \o st.ctrail, comment>>
